@@ -388,6 +388,10 @@ func RunCheck(id, tier, repo string, seed int, updateBaseline, quiet, writeEvide
 			}
 			continue
 		}
+		if r.Ob.Class == "reach" && r.Res.Status != "sat" && r.Res.Status != "unsat" {
+			vacuityOpen = append(vacuityOpen, r.Ob.Name) // no model within the short limit: inconclusive, never a failure
+			continue
+		}
 		if r.Res.Status == "disagree" {
 			emitf(quiet, "UNDECIDED property=%s: solvers disagree on %s (%v)\n", id, r.Ob.Name, r.Res.All)
 			res.Exit = 2
